@@ -1032,8 +1032,71 @@ class _Ev:
             return copy.deepcopy(self.st.env[e.id])
         return ast.Name(id=e.id, ctx=ast.Load())
 
+    def _record_member(self, recv, attr, args=None):
+        """``R(a, b).field`` is the argument; ``R(a, b).method(x)`` / ``.property`` of a
+        one-expression member is that expression over the arguments (records are immutable)"""
+        recs = getattr(self.w, 'records', None)
+        if not recs or not (isinstance(recv, ast.Call) and isinstance(recv.func, ast.Name) and recv.func.id in recs):
+            return None
+        fields, meths, props = recs[recv.func.id]
+        if any(isinstance(a, ast.Starred) for a in recv.args) or any(k.arg is None for k in recv.keywords):
+            return None
+        vals = dict(zip(fields, recv.args))
+        for k in recv.keywords:
+            vals[k.arg] = k.value
+        if set(vals) != set(fields) or len(recv.args) > len(fields):
+            return None
+        if args is None and attr in vals:
+            return copy.deepcopy(vals[attr])
+        if args is None and attr in props:
+            params, body = [], props[attr]
+        elif args is not None and attr in meths and len(meths[attr][0]) == len(args):
+            params, body = meths[attr]
+        else:
+            return None
+        m = dict(zip(params, args or []))
+        if any(isinstance(x, (ast.Lambda, ast.ListComp, ast.GeneratorExp, ast.SetComp, ast.DictComp)) for x in ast.walk(body)):
+            return None
+        outer = self
+
+        class _S(ast.NodeTransformer):
+            bad = False
+
+            def visit_Attribute(self_, n):
+                if isinstance(n.value, ast.Name) and n.value.id == 'self':
+                    r = outer._record_member(recv, n.attr)
+                    if r is None:
+                        self_.bad = True
+                        return n
+                    return r
+                return self_.generic_visit(n)
+
+            def visit_Call(self_, n):
+                if isinstance(n.func, ast.Attribute) and isinstance(n.func.value, ast.Name) and n.func.value.id == 'self':
+                    a2 = [self_.visit(copy.deepcopy(a)) for a in n.args]
+                    r = None if n.keywords else outer._record_member(recv, n.func.attr, a2)
+                    if r is None:
+                        self_.bad = True
+                        return n
+                    return r
+                return self_.generic_visit(n)
+
+            def visit_Name(self_, n):
+                if n.id in m:
+                    return copy.deepcopy(m[n.id])
+                if n.id == 'self':
+                    return copy.deepcopy(recv)
+                return n
+        t = _S()
+        res = t.visit(copy.deepcopy(body))
+        return None if t.bad else res
+
     def v_Attribute(self, e, cond):
         new = ast.Attribute(value=self.v(e.value, cond), attr=e.attr, ctx=ast.Load())
+        if isinstance(e.ctx, ast.Load):
+            r = self._record_member(new.value, e.attr)
+            if r is not None:
+                return r
         k = canon(new)
         if k in self.st.heap and self.w.read_heap:
             return copy.deepcopy(self.st.heap[k])
@@ -1217,6 +1280,10 @@ class _Ev:
                 and isinstance(args[1].value, str) and args[1].value.isidentifier():
             return self.v_Attribute(ast.Attribute(value=e.args[0], attr=args[1].value, ctx=ast.Load()), cond)
         in_binder = bool(self.shadow)
+        if isinstance(func, ast.Attribute) and not kws and not any(isinstance(a, ast.Starred) for a in args):
+            r = self._record_member(func.value, func.attr, args)
+            if r is not None:
+                return r
         # (lambda a, b: E)(x, y) is E with x, y in place of a, b
         if isinstance(func, ast.Lambda) and not kws and not any(isinstance(a, ast.Starred) for a in args):
             la = func.args
